@@ -1,4 +1,27 @@
-(* placeholder so that the pipeline can be exercised; replaced by the real theorems *)
-From SV Require Import Names Rep.
-Theorem C03_placeholder : True. Proof. exact I. Qed.
-Print Assumptions C03_placeholder.
+(* C03 -- matrix, face/coface, basis and index views describe the same complex: the part proved
+   for every history (index view = listing view).  Theorem statements only; proofs in RepInv.v.
+   Not proved yet (tested by the oracle): the entries of the boundary operators against faces(),
+   cofaces as the inverse of faces, basis = points of the closure, d.d = 0. *)
+From Coq Require Import String ZArith Bool Arith List.
+From SV Require Import Names NamesFacts ListFacts Rep Fresh Complex Atomic RepInv Reach.
+Import ListNotations.
+
+(* indexOf is the simplex's position in the listing of its order, orderOf that order *)
+Theorem C03_indexOf_is_listing_position_partial :
+  forall r s k i, pinv r ->
+  ((orderOf r s = Ok k /\ indexOf r s = Ok i) <-> nth_error (simplicesOfOrder r k) i = Some s).
+Proof. exact orderOf_indexOf_position. Qed.
+Print Assumptions C03_indexOf_is_listing_position_partial.
+
+(* ... at every point of every history *)
+Theorem C03_invariant_at_every_point : forall uid ops, pinv (fold_left rstep ops (empty_rep uid)).
+Proof. exact reachable_pinv. Qed.
+Print Assumptions C03_invariant_at_every_point.
+
+(* the listing above the maximum order is empty *)
+Theorem C03_nothing_above_max : forall r k, pinv r -> r_nord r <= k -> simplicesOfOrder r k = [].
+Proof.
+  intros r k H Hk. unfold simplicesOfOrder. destruct (k <? r_nord r) eqn:E; auto.
+  apply PeanoNat.Nat.ltb_lt in E. exfalso. apply (PeanoNat.Nat.lt_irrefl k). eapply PeanoNat.Nat.lt_le_trans; eauto.
+Qed.
+Print Assumptions C03_nothing_above_max.
